@@ -27,6 +27,11 @@ rc, out = sh("go build ./... && go build -tags verif ./...", cwd=repo); print("b
 rc, out = sh("go test -vet=off -count=1 -timeout 25m ./... 2>&1 | grep -E '^(--- FAIL|FAIL|ok|panic)' ", cwd=repo)
 fails = [l for l in out.splitlines() if l.startswith("--- FAIL") and "TestResolveEndpoint" not in l]
 pk = [l for l in out.splitlines() if l.startswith("FAIL") and "opcua/uacp" not in l and l.strip() != "FAIL"]
+if fails or pk:   # the machine is shared and loaded: re-run failing packages once, alone
+    pkgs = sorted({l.split()[1].replace("github.com/gopcua/opcua", ".") for l in pk})
+    rc, out2 = sh("go test -vet=off -count=1 -p 1 -timeout 25m %s 2>&1 | grep -E '^(--- FAIL|FAIL|ok|panic)' " % " ".join(pkgs or ["./..."]), cwd=repo)
+    fails = [l for l in out2.splitlines() if l.startswith("--- FAIL") and "TestResolveEndpoint" not in l]
+    pk = [l for l in out2.splitlines() if l.startswith("FAIL") and "opcua/uacp" not in l and l.strip() != "FAIL"]
 print("suite: unexpected failing tests:", fails, pk); rep["suite_ok"] = not fails and not pk
 # demonstration: must FAIL with the patch and PASS without it
 try:
